@@ -40,6 +40,14 @@ Subset (everything else raises Untranslatable; nothing is special-cased by funct
 Totalisations (numpy / Python raise instead): out-of-range index -> default 0; `a - b` on indices is the truncated
 subtraction of Nat; arrays of different lengths in an element-wise operation -> `[]`.
 
+N-D data with LIFTED leading axes (the `np.digitize` path of `util.bindown`, C05): a parameter of kind 'llist' is ONE ROW
+(last axis) of an array with `lifted_ndim` axes (spec key; >= 2) — the code must be point-wise in the leading axes, which
+the type system enforces: only `len(a.shape)` (the declared number of axes, static), `a[..., mask]` ('llist') and
+`x.mean(axis=<last axis>)` ('ls': one value per leading index) are accepted on it; a list comprehension
+`[E for i in range(lo, hi)]` of 'ls' values is 'lcols' (a Python list of 1-D arrays over the leading axis) and
+`np.column_stack` of it (for 2 axes) is again one row, the list of these values.  `x.mean()` is `Np.mean`: the sum divided
+by the count formed as a sum of ones.  List comprehensions over a `range` also build 'list' / 'natlist' values.
+
 File containers (C17: `TaurexSpectrum._load_from_hdf5`, `ObservedSpectrum.__init__`):
   * kind 'str': a string the code only passes on (a file name): Lean `String`, no operations;
   * `resources={'h5py.File': dict(lean='h5', args=['str', ('const', 'r')], datasets={'A/B/name': 'list', …})}`:
@@ -107,7 +115,8 @@ class VFn(Fn):
             if len(k[1]) == 1:
                 return self.lean_ty(k[1][0])
             return '(' + ' × '.join(self.lean_ty(x) for x in k[1]) + ')'
-        m = {'list': 'List α', 'natlist': 'List Nat', 'mask': 'List Bool', 'none': 'Unit', 'rows': 'List (List α)'}
+        m = {'list': 'List α', 'natlist': 'List Nat', 'mask': 'List Bool', 'none': 'Unit', 'rows': 'List (List α)',
+             'llist': 'List α', 'lcols': 'List α', 'ls': 'α'}      # (lifted leading axis: see the docstring)
         if k in m:
             return m[k]
         if is_lit(k):
@@ -185,6 +194,12 @@ class VFn(Fn):
         if isinstance(node, ast.Constant) and isinstance(node.value, (bool, int)):
             return bool(node.value)
         return None
+
+    def lifted_ndim(self, node):
+        n = self.spec.get('lifted_ndim')
+        if not isinstance(n, int) or n < 2:
+            self.fail(node, 'an array with lifted leading axes needs the declared number of axes (lifted_ndim >= 2)')
+        return n
 
     # ------------------------------------------------------------------ shapes
     def shape(self, node, env):
@@ -449,6 +464,9 @@ class VFn(Fn):
             # model describes is unchanged
             return self.tx(node.func.value, env)
         if full == 'len' and len(A) == 1 and not node.keywords:
+            if isinstance(A[0], ast.Attribute) and A[0].attr == 'shape' and self.tx(A[0].value, env)[1] == 'llist':
+                n = self.lifted_ndim(node)                # one row of an N-D array: the declared number of axes
+                return str(n), ('lit', n)
             if isinstance(A[0], ast.Attribute) and A[0].attr == 'shape':
                 n = len(self.shape(A[0], env))
                 return str(n), ('lit', n)
@@ -520,6 +538,26 @@ class VFn(Fn):
         if isnp and short == 'arange' and len(A) == 2 and not node.keywords:
             lo, hi = (self.co(self.tx(a, env), 'nat', a) for a in A)
             return "(List.range' %s (%s - %s))" % (lo, hi, lo), 'natlist'
+        if isnp and short == 'column_stack' and len(A) == 1 and not node.keywords:
+            # np.column_stack of 1-D arrays v_1 … v_B (each indexed by the lifted leading axis): the 2-D array with
+            # [r, b] = v_b[r]; the row the model describes is the list of the B values
+            ct, cty = self.tx(A[0], env)
+            if cty != 'lcols' or self.lifted_ndim(node) != 2:
+                self.fail(node, 'np.column_stack of something else than 1-D columns over the lifted axis')
+            return ct, 'llist'
+        if isinstance(node.func, ast.Attribute) and node.func.attr == 'mean' and not A:
+            bt, bty = self.tx(node.func.value, env)
+            kw = self.kw(node, ('axis',))
+            self.literals.add(0)
+            self.literals.add(1)
+            if bty == 'llist' and 'axis' in kw:
+                at, aty = self.tx(kw['axis'], env)
+                if not (is_lit(aty) and aty[1] == self.lifted_ndim(node) - 1):
+                    self.fail(node, 'mean along another axis than the last one')
+                return '(Np.mean %s)' % bt, 'ls'           # one value per index of the lifted leading axes
+            if bty == 'list' and not kw:
+                return '(Np.mean %s)' % bt, 's'
+            self.fail(node, 'unsupported mean')
         # methods of an array value
         if isinstance(node.func, ast.Attribute):
             m = node.func.attr
@@ -631,6 +669,23 @@ class VFn(Fn):
             if type(node.op) not in ops:
                 self.fail(node, 'unsupported operator')
             return self.arith(ops[type(node.op)], self.tx(node.left, env), self.tx(node.right, env), node)
+        if isinstance(node, ast.ListComp):
+            # [E for i in range(lo, hi)] (one generator over a range, no condition): the list of the values of E
+            g = node.generators[0] if len(node.generators) == 1 else None
+            if g is None or g.ifs or g.is_async or not isinstance(g.target, ast.Name) \
+                    or not (isinstance(g.iter, ast.Call) and ast.unparse(g.iter.func) == 'range' and not g.iter.keywords
+                            and len(g.iter.args) in (1, 2)):
+                self.fail(node, 'unsupported list comprehension')
+            ra = g.iter.args
+            lo = '0' if len(ra) == 1 else self.co(self.tx(ra[0], env), 'nat', node)
+            hi = self.co(self.tx(ra[-1], env), 'nat', node)
+            env2 = dict(env)
+            env2[g.target.id] = 'nat'
+            et, ety = self.tx(node.elt, env2)
+            out = {'s': 'list', 'ls': 'lcols', 'nat': 'natlist'}.get(ety)
+            if out is None:
+                self.fail(node, 'list comprehension of %s' % (ety,))
+            return "(List.map (fun %s => %s) (List.range' %s (%s - %s)))" % (self.var(g.target.id), et, lo, hi, lo), out
         if isinstance(node, ast.Compare):
             r = self.static(node, env)
             if r is not None:
@@ -743,6 +798,14 @@ class VFn(Fn):
                 if ity == 'natlist':
                     return '(Np.take [] %s %s)' % (bt, it), 'rows'
             self.fail(node, 'unsupported subscript of a 2-D array')
+        if bty == 'llist':
+            # one row of an N-D array (leading axes lifted): only `a[..., mask]`, a selection along the last axis
+            raw = list(node.slice.elts) if isinstance(node.slice, ast.Tuple) else [node.slice]
+            if len(raw) == 2 and isinstance(raw[0], ast.Constant) and raw[0].value is Ellipsis:
+                it, ity = self.tx(raw[1], env)
+                if ity == 'mask':
+                    return '(Np.compress %s %s)' % (bt, it), 'llist'
+            self.fail(node, 'unsupported subscript of an array with lifted leading axes')
         if bty not in ('list', 'natlist', 'mask'):
             self.fail(node, 'subscript of a %s' % (bty,))
         if len(idxs) != 1:
